@@ -64,9 +64,9 @@ macro_rules! F {
     };
 }
 
-//@ harness: c16_filter_2_2 props=C16 tier=thorough required=no class=functional covers=2 mem=16 timeout=1500 est=600
+//@ harness: c16_filter_2_2 props=C16 tier=thorough required=no class=functional covers=2 mem=16 timeout=900 est=600
 //@ bounds: message "0x10: [Edd] x" with arbitrary 2 digits, one listed code of arbitrary 2 digits: shown iff equal
 F!(c16_filter_2_2, 2, 2);
-//@ harness: c16_filter_3_2 props=C16 tier=thorough required=no class=functional covers=2 mem=16 timeout=1500 est=600
+//@ harness: c16_filter_3_2 props=C16 tier=thorough required=no class=functional covers=2 mem=16 timeout=900 est=600
 //@ bounds: 3-digit message code, listed 2-digit code (possibly a prefix of it): never shown
 F!(c16_filter_3_2, 3, 2);
